@@ -264,7 +264,6 @@ func sameRec(a walRec, e *wal.Entry) bool {
 // ---- generator ----
 
 func genSizedTok(r *rand.Rand, big bool) string {
-	max := wal.MaxRecordSize
 	if !big {
 		switch pick(r, 2, 6, 2) {
 		case 0:
@@ -278,11 +277,63 @@ func genSizedTok(r *rand.Rand, big bool) string {
 			return fmt.Sprintf("@%d:%d", 49+r.Intn(400), r.Intn(1<<20))
 		}
 	}
-	// sizes around the fragment boundaries
-	bases := []int{max - 30, max - 17, max - 13, max, 2 * max, 2*max - 17, 3 * max, 70000}
-	n := bases[r.Intn(len(bases))] + r.Intn(7) - 3
-	if n < 0 {
-		n = 0
+	return fmt.Sprintf("@%d:%d", 30000+r.Intn(40000), r.Intn(1<<20))
+}
+
+// bigEntry picks key and value lengths of an entry aimed at a boundary of the record format:
+// payload = 13 + klen + 4 + vlen (delete: 13 + klen); FULL iff payload <= Max; otherwise the
+// first fragment holds 13 + min(klen, Max-13) bytes and the remaining bytes ("tail") are cut
+// into Max-sized MIDDLE records and a final LAST record.
+func bigEntry(r *rand.Rand, del bool) (klen, vlen int) {
+	max := wal.MaxRecordSize
+	d := r.Intn(5) - 2 // -2..2
+	j := 1 + r.Intn(3)
+	klen = []int{0, 1, 3, 10, 40}[r.Intn(5)]
+	switch pick(r, 3, 5, 3, 2) {
+	case 0: // payload right at the FULL/fragmented boundary
+		if del {
+			klen = max - 13 + d
+			return klen, 0
+		}
+		vlen = max - 13 - 4 - klen + d
+	case 1: // tail = j*Max + d (exact multiples included)
+		if del {
+			klen = max - 13 + j*max + d
+			return klen, 0
+		}
+		vlen = j*max + d - 4
+	case 2: // key fills the first fragment exactly / spills by a few bytes or by whole records
+		klen = max - 13 + d
+		if r.Intn(2) == 0 {
+			klen = max - 13 + j*max + d
+		}
+		if del {
+			return klen, 0
+		}
+		// value chosen so that the tail again ends near a record boundary
+		spill := klen - (max - 13)
+		if spill < 0 {
+			spill = 0
+		}
+		vlen = ((spill+4)/max+1)*max - spill - 4 + (r.Intn(3) - 1)
+		if vlen < 0 {
+			vlen = 0
+		}
+	default:
+		vlen = 30000 + r.Intn(70000)
+	}
+	if vlen < 0 {
+		vlen = 0
+	}
+	if klen < 0 {
+		klen = 0
+	}
+	return
+}
+
+func lenTok(r *rand.Rand, n int) string {
+	if n == 0 {
+		return "-"
 	}
 	return fmt.Sprintf("@%d:%d", n, r.Intn(1<<20))
 }
@@ -306,13 +357,19 @@ func genC09(w *bufio.Writer, seed int64, n int, tier string) {
 			}
 			switch pick(r, 8, 3, 1, 3, 2, 2, 2, 1) {
 			case 0:
-				if big() && r.Intn(3) == 0 {
-					fmt.Fprintf(w, "put %s %s\n", genSizedTok(r, true), genSizedTok(r, false))
+				if big() {
+					kl, vl := bigEntry(r, false)
+					fmt.Fprintf(w, "put %s %s\n", lenTok(r, kl), lenTok(r, vl))
 				} else {
-					fmt.Fprintf(w, "put %s %s\n", genSizedTok(r, false), genSizedTok(r, big()))
+					fmt.Fprintf(w, "put %s %s\n", genSizedTok(r, false), genSizedTok(r, false))
 				}
 			case 1:
-				fmt.Fprintf(w, "del %s\n", genSizedTok(r, big()))
+				if big() {
+					kl, _ := bigEntry(r, true)
+					fmt.Fprintf(w, "del %s\n", lenTok(r, kl))
+				} else {
+					fmt.Fprintf(w, "del %s\n", genSizedTok(r, false))
+				}
 			case 2:
 				fmt.Fprintf(w, "merge %s %s\n", genSizedTok(r, false), genSizedTok(r, false))
 			case 3:
